@@ -104,9 +104,45 @@ def determinism(nseeds: int, k: int) -> int:
     return 0 if bad == 0 else 2
 
 
+def forkmodel(k: int) -> int:
+    """Cross-check of the process model: the same sessions executed by forked children of a zygote
+    and by exec'd brand-new interpreters (SIM_MODE=exec) must record the same events.  The heap
+    probe is excluded: an exec'd interpreter that imports tealer inside the session has another
+    allocation history than a child of a warm zygote, and nothing else may depend on that."""
+    chk = Check("C14", "quick", 1, 4)
+    os.environ["SIM_MODE"] = "exec"
+    r2 = Runner(workers=4)
+    os.environ.pop("SIM_MODE")
+    bad = 0
+    try:
+        chk.reference_phase()
+        specs = gen_specs(chk, 7, k)
+        jobs = [(i, {"ops": s["ops"]}, s["hashseed"]) for i, s in enumerate(specs)]
+        a = dict(chk.runner.run_many(jobs, timeout=300))
+        b = dict(r2.run_many(jobs, timeout=600))
+
+        def strip(res: Dict[str, Any]) -> str:
+            evs = [{kk: v for kk, v in e.items() if kk != "addr"} for e in res.get("events", [])]
+            return json.dumps(evs, sort_keys=True)
+
+        for i, s in enumerate(specs):
+            if strip(a[i]) != strip(b[i]):
+                bad += 1
+                for j, (x, y) in enumerate(zip(a[i].get("events", []), b[i].get("events", []))):
+                    keys = [kk for kk in sorted(set(x) | set(y)) if x.get(kk) != y.get(kk) and kk != "addr"]
+                    if keys:
+                        log(f"FORK-vs-EXEC session={i} op={j} ({s['ops'][j]['op']}) differing fields={keys}")
+                        break
+        log(f"[forkmodel] sessions compared={len(specs)} divergent={bad}")
+    finally:
+        chk.runner.close()
+        r2.close()
+    return 0 if bad == 0 else 2
+
+
 def main() -> int:
     ap = argparse.ArgumentParser()
-    ap.add_argument("what", choices=["determinism", "dump-specs", "sensitivity"])
+    ap.add_argument("what", choices=["determinism", "dump-specs", "sensitivity", "forkmodel"])
     ap.add_argument("--seeds", type=int, default=3)
     ap.add_argument("--sessions", type=int, default=16)
     ap.add_argument("--only", default="")
@@ -115,6 +151,8 @@ def main() -> int:
         return dump_specs(args.seeds, args.sessions)
     if args.what == "determinism":
         return determinism(args.seeds, args.sessions)
+    if args.what == "forkmodel":
+        return forkmodel(args.sessions)
     from sim import mutants  # pylint: disable=import-outside-toplevel
 
     return mutants.run_all(args.only)
